@@ -188,7 +188,11 @@ func TestErrorKinds(t *testing.T) {
 // A Context without any back end
 
 func bareContext(ec *endorse.Context) context.Context {
-	ctx := output.NewContext(context.Background(), &output.Options{Quiet: true, Overwrite: true})
+	return optionsContext(ec, "", false)
+}
+
+func optionsContext(ec *endorse.Context, out string, keepGoing bool) context.Context {
+	ctx := output.NewContext(context.Background(), outputOptions(out, keepGoing, true))
 	ctx = keys.NewContext(ctx, &keys.Context{CA: fakeCA{}, Signer: fakeSigner{}, Random: &counterReader{}})
 	return endorse.NewContext(ctx, ec)
 }
@@ -258,14 +262,15 @@ func TestNoBackend(t *testing.T) {
 func TestTwoBackends(t *testing.T) {
 	initFW(t)
 	const name = "vf/two-backends"
-	ev.Rule(name, "ONE endorse.VirtualFirmware call with Context.VCSs = [A, B] (two scripted doubles with separate heads, scripts and logs; Context.VCS {nil | A | B}); retry budget drawn from {0,1,2}; each back end's script drawn as in vf/sampled (all sites, standard error kinds, 0..3 foreign entries per step). VirtualFirmware stops at the first back end whose submission fails. Oracle: each back end that was submitted to is judged on its own log with every clause of vf/exhaustive (its own attempts <= max(budget,0)+1, retries only after ITS OWN retriable verdict, fresh workspaces, releases, exactly one commit and one Result for a reported success, its foreign entries kept); the call's error is attributed to A unless A committed and B was started. Going on to B after A failed, or leaving B out after A committed, is outside the statement and only counted (inconclusive/...). non-trivial = both back ends were submitted to; distinct = (wiring, budget, both scripts)")
+	ev.Rule(name, "ONE endorse.VirtualFirmware call with Context.VCSs = [A, B] (two scripted doubles with separate heads, scripts and logs; Context.VCS {nil | A | B}); retry budget drawn from {0,1,2}; each back end's script drawn as in vf/sampled (all sites, standard error kinds, 0..3 foreign entries per step); output modality and --keep_going drawn as in vf/sampled. VirtualFirmware stops at the first back end whose submission fails (an implementation that, under --keep_going, goes on to B and reports A's failure at the end is accepted: the call's error is then A's). Oracle: each back end that was submitted to is judged on its own log with every clause of vf/exhaustive (its own attempts <= max(budget,0)+1, retries only after ITS OWN retriable verdict, fresh workspaces, releases, exactly one commit and one Result for a reported success, its foreign entries kept); the call's error is attributed to A unless A committed and B was started. Going on to B after A failed, or leaving B out after A committed, is outside the statement and only counted (inconclusive/...). non-trivial = both back ends were submitted to; distinct = (wiring, budget, both scripts)")
 	checks(ev.Scale(1500, 15000))
 	sites := []string{sWS, sRead, sExists, sWrite, sChmod, sWMan, sCommit}
 	rapid.Check(t, func(t *rapid.T) {
 		budget := rapid.SampledFrom([]int{0, 1, 2}).Draw(t, "budget")
 		wiring := rapid.SampledFrom([]string{"vcs=nil", "vcs=A", "vcs=B"}).Draw(t, "wiring")
-		scA := &scenario{Mode: modeVF, Budget: budget, Overwrite: true, Candidate: "two"}
-		scB := &scenario{Mode: modeVF, Budget: budget, Overwrite: true, Candidate: "two"}
+		out, keepGoing := genOptions(t)
+		scA := &scenario{Mode: modeVF, Budget: budget, Overwrite: true, Candidate: "two", Out: out, KeepGoing: keepGoing}
+		scB := &scenario{Mode: modeVF, Budget: budget, Overwrite: true, Candidate: "two", Out: out, KeepGoing: keepGoing}
 		// A mostly succeeds in the end so that B is reached
 		scA.Script = genScript(t, sites, bound(budget)+1)
 		if rapid.SampledFrom([]int{0, 1, 2, 3}).Draw(t, "aSucceeds") != 0 {
@@ -295,7 +300,9 @@ func TestTwoBackends(t *testing.T) {
 		case "vcs=B":
 			ec.VCS = dB
 		}
-		err, pan := safeVirtualFirmware(bareContext(ec))
+		var err error
+		var pan any
+		muted(out, true, func() { err, pan = safeVirtualFirmware(optionsContext(ec, out, keepGoing)) })
 		canon := fmt.Sprintf("%s A{%s} B{%s}", wiring, scA, scB)
 		aCommitted, bCommitted := false, false
 		for _, w := range dA.wss {
